@@ -14,9 +14,9 @@ def cbytes(b):
 
 
 def extract(g, X):
-    enc = X.strip_comments(X.read("pdf/src/enc.rs"))
-    stream = X.strip_comments(X.read("pdf/src/object/stream.rs"))
-    filers = X.strip_comments(X.read("pdf/src/file.rs"))
+    enc = X.source("pdf/src/enc.rs")
+    stream = X.source("pdf/src/object/stream.rs")
+    filers = X.source("pdf/src/file.rs")
 
     def bpc():
         # the values of /BitsPerComponent that the geometry check lets through: the rejecting condition is evaluated for
